@@ -255,6 +255,7 @@ func (dlv *Delivery) Calculate() error {
 	if dlv.HasTags(tax.TagCustomerRates) {
 		applyCustomerRates(dlv)
 	}
+	dropRegimeCountry(dlv)
 	dlv.Normalize(dlv.normalizers())
 	return calculate(dlv)
 }
